@@ -61,6 +61,13 @@ fn add(ext: &mut Extensions, kind: &str, p: i32, no: bool, tag: usize, log: &Log
             }),
             id,
         ),
+        "presentfn" => ext.add_present_fn(
+            Box::new(move |_, _| pred),
+            present!(_data, move |log: Log, tag: usize| {
+                log.lock().unwrap().push(format!("presentfn{tag}"));
+            }),
+            id,
+        ),
         _ => unreachable!(),
     }
 }
@@ -71,6 +78,7 @@ fn remove(ext: &mut Extensions, kind: &str, p: i32) {
         "package" => ext.remove_package(id),
         "post" => ext.remove_post(id),
         "prepare" => ext.remove_prepare_fn(id),
+        "presentfn" => ext.remove_present_fn(id),
         _ => unreachable!(),
     }
 }
@@ -81,6 +89,7 @@ fn listing(ext: &Extensions, kind: &str) -> String {
         "package" => list(ext.get_package().iter().map(|e| f(&e.0))),
         "post" => list(ext.get_post().iter().map(|e| f(&e.0))),
         "prepare" => list(ext.get_prepare_fn().iter().map(|e| f(&e.0))),
+        "presentfn" => list(ext.get_present_fn().iter().map(|e| f(&e.0))),
         _ => unreachable!(),
     }
 }
@@ -112,7 +121,7 @@ impl Group for Ops {
         "c16.ops"
     }
     fn rule(&self) -> &'static str {
-        "add/remove sequences on the prime, package, post and prepare_fn lists of a real `Extensions::empty()`: all sequences of length <= 3 (quick) / 4 (thorough) over priorities -1..1 x {add, add no_override, remove}, random to length 60 over -4..4 and near i32::MIN/MAX; listing via get_prime/get_package/get_post/get_prepare_fn after the sequence compared with the model and an independent reference map; non-trivial = contains a remove or a no_override add"
+        "add/remove sequences on the prime, package, post, prepare_fn and present_fn lists of a real `Extensions::empty()`: all sequences of length <= 3 (quick) / 4 (thorough) over priorities -1..1 x {add, add no_override, remove}, random to length 60 over -4..4 and near i32::MIN/MAX; listing via get_prime/get_package/get_post/get_prepare_fn/get_present_fn after the sequence compared with the model and an independent reference map; non-trivial = contains a remove or a no_override add"
     }
     fn generate(&self, ctx: &Ctx, rng: &mut Rng) -> Vec<String> {
         let mut v = Vec::new();
@@ -147,7 +156,7 @@ impl Group for Ops {
         let n = if ctx.mode == Mode::Quick { 1500 } else { 40_000 };
         let mut tag = 0;
         for i in 0..n {
-            let kind = ["prime", "package", "post", "prepare"][i % 4];
+            let kind = ["prime", "package", "post", "prepare", "presentfn"][i % 5];
             let (lo, hi) = match rng.below(8) {
                 0 => (i32::MIN, i32::MIN + 3),
                 1 => (i32::MAX - 3, i32::MAX),
